@@ -209,7 +209,11 @@ def main(argv=None):
         for k, e in sorted(reproduced.items()):
             print('KNOWN-FINDING: property=%s key=%s %s' % (prop, k, e.get('what', '')))
 
-        replay_dir = os.path.join(HERE, 'evidence', 'replays')
+        # runs against a scratch copy of the repository (seeded changes) must not leave replay files among the evidence
+        if os.environ.get('VERIF_REPO') and os.path.realpath(os.environ['VERIF_REPO']) != '/repo':
+            replay_dir = os.path.join(tempfile.gettempdir(), 'verif-replays-scratch')
+        else:
+            replay_dir = os.path.join(HERE, 'evidence', 'replays')
         os.makedirs(replay_dir, exist_ok=True)
         viol_lines = []
         for k, v in sorted(new.items()):
